@@ -115,13 +115,15 @@ class Network:
                 continue
             if hasattr(peer, "rferr"):
                 peer.rferr = kind == "rferr"
-            for reply, dest in peer.on_datagram(data, transport.local):
+            for item in peer.on_datagram(data, transport.local):
+                reply, dest = item[0], item[1]
+                extra = item[2] if len(item) > 2 else 0.0
                 self.n_s2c += 1
                 fates = None
                 if self.s2c is not None:
                     fates = self.s2c(reply, now, self.n_s2c)
                 if fates is None:
-                    fates = self._default_fate(reply, now, self.n_s2c, "s2c")
+                    fates = [f + extra for f in self._default_fate(reply, now, self.n_s2c, "s2c")]
                 self.log.append((now, "s2c", reply, {"from": peer.addr, "fates": list(fates), "tr": transport.id}))
                 for d in fates:
                     self.loop.call_at(now + d, self._at_client, transport, reply, peer.addr)
